@@ -7,6 +7,9 @@ import common
 import streamlib
 from streams import compare
 
+# findings of this check: C16.1 (max_containment asymmetric on mixed scaled; fixed 0bf3075), C16.2 (avg-containment ANI
+# builder ignored `downsample`; fixed b596f84; regression case corpus/C16/avg_ani_downsample.ops)
+
 TB = [
     "Lean 4.33 kernel; axioms allowed: propext, Classical.choice, Quot.sound (checked by #print axioms on every theorem)",
     "multiprocessing.Pool.imap returns the results of its batches in submission order and re-raises a worker's exception when "
